@@ -69,19 +69,29 @@ def chain_of(body, local, limit=24):
 
 
 def variant_defs(body, local):
-    """if `local` is assigned only Result / Option variant aggregates (in distinct blocks), return {variant name: block}"""
-    out = {}
+    """if `local` is assigned only Result / Option variants (aggregates, or the residual of a `?`: None / Err), return
+    {variant name: block} for the variants that are constructed in exactly one block; None when some definition is of another kind"""
+    blocks = {}
     for b, kind, x in body.defs().get(local, []):
+        if kind == 'call':
+            c = cname(x)
+            if 'FromResidual' in c and c.endswith('::from_residual'):
+                v = 'None' if 'Option' in c else 'Err'
+                blocks.setdefault(v, []).append(b)
+                continue
+            return None
         if kind != 'assign' or x['lhs']['p'] or x['rv']['rk'] != 'aggregate':
             return None
         agg = x['rv']['agg']
         for v in ('Result::Ok', 'Result::Err', 'Option::Some', 'Option::None'):
             if agg.endswith(v):
-                out[v.split('::')[1]] = b
+                blocks.setdefault(v.split('::')[1], []).append(b)
                 break
         else:
             return None
-    return out if len(out) >= 2 else None
+    if len(blocks) < 2:
+        return None
+    return {v: bs[0] for v, bs in blocks.items() if len(bs) == 1}
 
 
 def correlated_origin(body, g):
